@@ -20,7 +20,7 @@ head = subprocess.check_output("git -C /repo rev-parse HEAD", shell=True, text=T
 sh(f"git checkout -q --detach {head} && git checkout -q -- . && git clean -fdq")
 
 def run_tests(filt, lib_only):
-    cmd = f"cargo nextest run -p {crate} --offline --no-fail-fast {'--lib' if lib_only and crate=='agdb' else ''} {filt}"
+    cmd = f"cargo nextest run -p {crate} --offline --no-fail-fast  {filt}"
     r = sh(cmd)
     tail = "\n".join((r.stdout + r.stderr).strip().split("\n")[-6:])
     return r.returncode, tail, cmd
